@@ -47,7 +47,7 @@ func TestTaskExecutorConcurrentReschedule(t *testing.T) {
 			}()
 		}
 		close(start)
-		if !ctl.Within(ctl.HangTimeout, wg.Wait) {
+		if !ctl.WithinHang(wg.Wait) {
 			fail("ExecuteAt calls did not return within %v\n%s", ctl.HangTimeout, ctl.Dump())
 		}
 		if due.Sub(time.Now()) < 5*time.Millisecond {
@@ -63,7 +63,7 @@ func TestTaskExecutorConcurrentReschedule(t *testing.T) {
 			cancelled[id] = exec.Cancel(id)
 			early[id] = due.Sub(time.Now()) >= 5*time.Millisecond
 		}
-		if !ctl.Within(ctl.HangTimeout+time.Second, func() { exec.Shutdown() }) {
+		if !ctl.WithinHang(func() { exec.Shutdown() }) {
 			fail("waiting Shutdown did not return within %v after the due time\n%s", ctl.HangTimeout, ctl.Dump())
 		}
 		for id := 0; id < ids; id++ {
